@@ -1,6 +1,7 @@
 package main
 
 import (
+	"fmt"
 	"golang.org/x/tools/go/ssa"
 )
 
@@ -18,6 +19,7 @@ func init() {
 			r.Rule("C18.identity", "identity.Unmarshal: id = IDFromPublicKey(decoded key); nil only when all steps succeeded", 3)
 			r.Rule("C18.only-door", "deliver called only from processContainerMessage; outer sender = pubsub GetFrom()", 2)
 			r.Rule("C18.isolation", "worker continues after a rejected message", 1)
+			r.Rule("C18.total", "no index or slice expression on the receive path can go out of range (a panic in the worker would end delivery for every later message)", 1)
 			fn := r.MustFn("C18.binding", "pkg/net/libp2p", "channel.processContainerMessage")
 			if fn == nil {
 				return
@@ -100,6 +102,13 @@ func init() {
 						"the proposed sender must be the pubsub message's authenticated author; got "+Desc(c.Common().Args[1]))
 				}
 			}
+			if pm := r.MustFn("C18.total", "pkg/net/libp2p", "channel.processPubsubMessage"); pm != nil {
+				fns := ReachableIn([]*ssa.Function{pm}, 6)
+				for _, f := range fns {
+					r.indexTotality("C18.total", f, false)
+				}
+				r.Cond(len(fns) >= 5, "C18.total", "receive-path", pm.Pos(), fmt.Sprintf("%d functions of pkg/net/libp2p reachable from processPubsubMessage examined", len(fns)))
+			}
 			if w := r.MustFn("C18.isolation", "pkg/net/libp2p", "channel.incomingMessageWorker"); w != nil {
 				bs := BranchBlocks(w, `^-\(call:pkg/net/libp2p\.channel\.processPubsubMessage\(.*\) == nil\)$`)
 				if len(bs) != 1 {
@@ -118,4 +127,7 @@ func init() {
 			}
 		},
 	})
+	witness(Witness{Prop: "C18", Name: "key-prefix-unguarded", File: "pkg/net/libp2p/identity.go",
+		Old: "\ti.pubKey, err = libp2pcrypto.UnmarshalPublicKey(pbIdentity.PubKey)\n\tif err != nil {\n\t\treturn err\n\t}",
+		New: "\ti.pubKey, err = libp2pcrypto.UnmarshalPublicKey(pbIdentity.PubKey)\n\tif err != nil {\n\t\treturn fmt.Errorf(\"bad key [%x]: [%v]\", pbIdentity.PubKey[:2], err)\n\t}", Rule: "C18.total"})
 }
